@@ -9,6 +9,7 @@ the oracle assert e.g. that a sharded fetch really issued Range requests.
 import http.server
 import os
 import re
+import urllib.parse
 import socket
 import threading
 
@@ -23,7 +24,12 @@ class _Handler(http.server.BaseHTTPRequestHandler):
         pass
 
     def _resolve(self):
-        path = self.path.split("?")[0].lstrip("/")
+        # percent-escapes are decoded once, as every web server does; the first path segment
+        # may be an alias of a directory (dataset names with spaces / non-ASCII letters)
+        path = urllib.parse.unquote(self.path.split("?")[0]).lstrip("/")
+        first, sep, rest = path.partition("/")
+        if first in getattr(self.server, "aliases", {}):
+            path = self.server.aliases[first] + sep + rest
         cands = [path]
         m = CHUNK_RE.match(path)
         if m:
